@@ -22,6 +22,12 @@ for line in out.splitlines():
     elif cur and line.startswith("["):
         res[cur]["first_witnesses"].append(line[:260])
 meta["caught_by"]=sorted(k for k,v in res.items() if v["exit"]==1 and v["violation_lines"]>0)
+import os
+sp=os.path.join(os.path.dirname(os.path.dirname(os.path.dirname(os.path.abspath(sys.argv[1])))),"selftest","seeded_summaries.json")
+try:
+    summ=json.load(open(sp)).get(meta["name"])
+    if summ: meta["needs_to_manifest"]=summ+" (details: notes.md)"
+except Exception: pass
 json.dump(meta,open(sys.argv[1],"w"),indent=1)
 PY
 done
